@@ -12,6 +12,7 @@ Targets == {-1} \cup {i - 1 : i \in 1..Len(vars)}
 Att(n, t, vs) == [name |-> n, xtype |-> t, n |-> Len(vs), vals |-> vs]
 DimSeqs == {<<>>} \cup {<<d>> : d \in 0..(Len(dims) - 1)} \cup {<<d, e>> : d, e \in 0..(Len(dims) - 1)}
 Tok(v) == Const(RowLen(vars[v + 1]), tk)
+SrcAtts == {Att("x", "int", <<7>>), Att("x", "double", <<9, 9, 9>>), Att("x", "short", <<7, 8>>)}
 
 OpenNext ==
     \/ \E n \in Names, ln \in Lens : DefDim(n, ln, DefDimRc(n, ln)) /\ Len(dims) < 3 /\ tk' = tk
@@ -28,6 +29,10 @@ OpenNext ==
           RenameDim(d, n, NLen(dims[d + 1].name), NLen(n), RenameDimRc(d, n, NLen(dims[d + 1].name), NLen(n))) /\ tk' = tk
     \/ \E t1 \in Targets, t2 \in Targets, n \in Names : \E rc \in {"NC_NOERR", "NC_ENOTATT", "NC_ENOTINDEFINE", "NC_EBADTYPE", "NC_ESTRICTCDF2", "NC_ELATEFILL", "NC_EINVAL", "NC_ENOTVAR"} :
           CopyAtt(t1, n, t2, rc) /\ tk' = tk
+    \* attributes of a second open file (fixture of the harness: an int, a double[3] and a short[2] attribute, each in a list of its own)
+    \/ \E a \in SrcAtts, t2 \in Targets, nm \in Names : \E rc \in PutAttRcs(t2, [a EXCEPT !.name = nm]) :
+          mode # "closed" /\ CopyAttFrom([a EXCEPT !.name = nm], t2, rc) /\ tk' = tk
+    \/ \E t1 \in Targets, n \in Names : mode # "closed" /\ CopyAttTo(t1, n, "ANY") /\ tk' = tk
     \/ \E m \in {"FILL", "NOFILL"} : \E rc \in {"NC_NOERR", "NC_ENOTINDEFINE"} : SetFill(m, rc) /\ tk' = tk
     \/ \E v \in 0..(Len(vars) - 1), nf \in BOOLEAN : \E rc \in {"NC_NOERR", "NC_ENOTINDEFINE"} : DefVarFill(v, nf, rc) /\ tk' = tk
     \/ \E rc \in {"NC_NOERR", "NC_ENOTINDEFINE"} : Enddef(rc) /\ tk' = tk
